@@ -9,6 +9,7 @@ import (
 	"regexp"
 	"sort"
 	"strings"
+	"sync/atomic"
 	"testing"
 	"time"
 
@@ -41,6 +42,11 @@ func verifC30Confs(col string) map[string]*conf.Path {
 			Name: key, RecordPath: verifutil.UnHexS(p[2]), RecordFormat: conf.RecordFormatFMP4,
 			RecordDeleteAfter: conf.Duration(time.Duration(verifutil.AtoI64(p[3])) * time.Microsecond),
 		}
+		// as in a loaded configuration: recordSegmentDuration is never 0 (default 1h) and not above recordDeleteAfter
+		pc.RecordSegmentDuration = conf.Duration(time.Hour)
+		if pc.RecordDeleteAfter != 0 && pc.RecordDeleteAfter < pc.RecordSegmentDuration {
+			pc.RecordSegmentDuration = pc.RecordDeleteAfter
+		}
 		if p[1] == "R" {
 			pc.Regexp = verifC30Regexp(key)
 		}
@@ -68,6 +74,85 @@ func verifC30Exec(op string) string {
 	switch f[0] {
 	case "reset":
 		return "ok" // case delimiter only
+	case "reload":
+		// reload <nowUs> <d0> <d1,d2,…|->: recordDeleteAfter (µs) of path cam1 in the initial configuration and in each
+		// configuration delivered through ReloadPathConfs while the first pass is still running; which configuration
+		// does the next pass use?  (cam2 always has a short retention: it keeps the clean interval short)
+		os.RemoveAll(verifC30Root)
+		if err := os.MkdirAll(verifC30Root, 0o755); err != nil {
+			panic(err)
+		}
+		defer os.RemoveAll(verifC30Root)
+		wd, _ := os.Getwd()
+		if err := os.Chdir(verifC30Root); err != nil {
+			panic(err)
+		}
+		defer os.Chdir(wd) //nolint:errcheck
+		now := time.UnixMicro(verifutil.AtoI64(f[1]))
+		old := fmt.Sprint(now.Unix() - 3600)
+		for _, p := range []string{"cam1", "cam2"} {
+			os.MkdirAll(filepath.Join(verifC30Root, "recordings", p), 0o755) //nolint:errcheck
+			if err := os.WriteFile(filepath.Join(verifC30Root, "recordings", p, old+".mp4"), []byte("x"), 0o644); err != nil {
+				panic(err)
+			}
+		}
+		mk := func(d1 int64) map[string]*conf.Path {
+			m := map[string]*conf.Path{}
+			for k, d := range map[string]int64{"cam1": d1, "cam2": 40000} {
+				m[k] = &conf.Path{Name: k, RecordPath: "recordings/%path/%s", RecordFormat: conf.RecordFormatFMP4,
+					RecordDeleteAfter: conf.Duration(time.Duration(d) * time.Microsecond), RecordSegmentDuration: conf.Duration(time.Duration(d) * time.Microsecond)}
+			}
+			return m
+		}
+		savedLocal, savedNow := time.Local, timeNow
+		time.Local = time.UTC
+		var calls atomic.Int32
+		gate := make(chan struct{})
+		timeNow = func() time.Time {
+			if calls.Add(1) == 1 {
+				<-gate // the first pass stays "in progress" until released
+			}
+			return now
+		}
+		c := &Cleaner{PathConfs: mk(verifutil.AtoI64(f[2])), Parent: verifC30Log{}}
+		c.Initialize()
+		waitFor := func(cond func() bool) bool {
+			for i := 0; i < 3000; i++ {
+				if cond() {
+					return true
+				}
+				time.Sleep(time.Millisecond)
+			}
+			return false
+		}
+		res := "timeout"
+		if waitFor(func() bool { return calls.Load() >= 1 }) {
+			done := make(chan struct{})
+			go func() {
+				if f[3] != "-" {
+					for _, d := range strings.Split(f[3], ",") {
+						c.ReloadPathConfs(mk(verifutil.AtoI64(d)))
+					}
+				}
+				close(done)
+			}()
+			time.Sleep(5 * time.Millisecond)
+			close(gate)
+			<-done
+			n0 := calls.Load()
+			// a pass that started after the last delivery has finished once two more passes have started
+			if waitFor(func() bool { return calls.Load() >= n0+2 }) {
+				res = "kept"
+				if _, err := os.Lstat(filepath.Join(verifC30Root, "recordings", "cam1", old+".mp4")); err != nil {
+					res = "deleted"
+				}
+			}
+		} else {
+			close(gate)
+		}
+		c.Close()
+		time.Local, timeNow = savedLocal, savedNow
+		return "cam1=" + res
 	case "run":
 		// run <cwdHex> <nowUs> <confs> <filesHex,…> | <rx table> | <cal table>
 		cwd := verifutil.UnHexS(f[1])
@@ -142,10 +227,10 @@ var verifC30Keys = []struct {
 	re  bool
 }{
 	{"cam1", false}, {"live/a", false}, {"cam2", false}, {"all_others", true}, {"~^live/(.+)$", true},
-	{"~^cam[0-9]+$", true}, {"~^.*$", true}, {"all", true}, {"~^[a-z]+$", true}, {"other", false},
+	{"~^cam[0-9]+$", true}, {"~^.*$", true}, {"all", true}, {"~^[a-z]+$", true}, {"other", false}, {"cams//front", false},
 }
 
-var verifC30Names = []string{"cam1", "cam2", "cam10", "live/a", "live/b", "live/a/b", "other", "x", "x_1699990000.mp4", "a/b", "cam1.bak", "zz/1699990000.mp4/y"}
+var verifC30Names = []string{"cam1", "cam2", "cam10", "live/a", "live/b", "live/a/b", "other", "x", "x_1699990000.mp4", "a/b", "cam1.bak", "zz/1699990000.mp4/y", "cams//front", "a///b"}
 
 // does configuration validation accept a record path with two %path? (if a fix forbids it, such
 // formats are not generated: they can no longer be configured)
@@ -265,7 +350,13 @@ func verifC30Gen(r *verifutil.Rand, i int, thorough bool) []string {
 			del = []int64{10e6, 3600e6, 86400e6}[r.Intn(3)]
 		}
 		var us int64
-		switch r.Intn(7) {
+		switch r.Intn(8) {
+		case 7: // age between recordDeleteAfter and recordDeleteAfter + recordSegmentDuration
+			sd := int64(3600e6)
+			if del < sd {
+				sd = del
+			}
+			us = nowUs - del - 1 - int64(r.U64()%uint64(sd))
 		case 0:
 			us = nowUs - del // exactly on the boundary
 		case 1:
@@ -408,6 +499,28 @@ func verifC30Gen(r *verifutil.Rand, i int, thorough bool) []string {
 	for k, s := range files {
 		fh[k] = verifutil.HexS(s)
 	}
+	if i%8 == 3 {
+		short := []int64{40000, 30000}
+		pick := func() int64 {
+			if r.Bool() {
+				return 0
+			}
+			return short[r.Intn(2)]
+		}
+		var ds []string
+		for k := r.Intn(4); k > 0; k-- {
+			ds = append(ds, fmt.Sprint(pick()))
+		}
+		dcol := "-"
+		if len(ds) > 0 {
+			dcol = strings.Join(ds, ",")
+		}
+		d0 := int64(0)
+		if r.Chance(1, 5) {
+			d0 = 40000
+		}
+		return []string{"reset", fmt.Sprintf("reload %d %d %s", nowUs, d0, dcol)}
+	}
 	return []string{"reset", fmt.Sprintf("run %s %d %s %s | %s | %s", verifutil.HexS(verifC30Root), nowUs, strings.Join(cc, ","),
 		strings.Join(fh, ","), verifC30Join(rx), verifC30Join(cal))}
 }
@@ -420,6 +533,9 @@ func TestVerifC30(t *testing.T) {
 		Class: func(op, impl string) string {
 			if strings.HasPrefix(op, "reset") {
 				return "reset"
+			}
+			if strings.HasPrefix(op, "reload") {
+				return "reload/" + impl
 			}
 			a := strings.Fields(impl)
 			if len(a) != 2 {
@@ -438,6 +554,6 @@ func TestVerifC30(t *testing.T) {
 				return "run/deleted-3+"
 			}
 		},
-		NonTrivial: func(op, impl string) bool { return strings.HasPrefix(op, "run") },
+		NonTrivial: func(op, impl string) bool { return !strings.HasPrefix(op, "reset") },
 	})
 }
